@@ -13,7 +13,7 @@
    [u] is the type universe (method sets): all theorems hold for every universe. *)
 From Eino Require Import Base.Util Model.Types Model.TypeBuilder.
 From Eino Require Import Proofs.TypesLattice Proofs.TypesBuilder Proofs.TypesRun Proofs.TypesInv2 Proofs.TypesMay Proofs.TypesMain.
-From Eino Require Import Proofs.TypesOrder Proofs.TypesAddOrder Proofs.TypesFlow Proofs.TypesLatticeX.
+From Eino Require Import Proofs.TypesOrder Proofs.TypesAddOrder Proofs.TypesFlow Proofs.TypesFlowX Proofs.TypesLatticeX.
 
 (* the universe of the harness: T1 T2 T3 M = TConc 0..3, I1 I2 = TIface 0 1 *)
 Definition U0 : univ :=
@@ -271,6 +271,40 @@ Proof.
   eapply flow_type_safe; [| | exact F]; [unfold st_b; apply surjective_pairing | vm_compute; reflexivity].
 Qed.
 
+(* The run-time checks are exact connection by connection, whatever the execution
+   discipline (the scheduler-independent form of may_edges_error_iff): for a value d of the
+   upstream node's static type ([done_ok]), the converters installed on a data edge or branch
+   end s -> t (handlerOnEdges) let it pass exactly when it is assignable to t's input type,
+   and the converter of a branch of s (handlerPreBranch) exactly when it is assignable to the
+   condition's type.  Together with flow_type_safe: a value is stopped with the ordinary
+   error iff it is not assignable, and what is not stopped never fails an assertion. *)
+Theorem connection_check_exact : forall u orcs i o s0 ops st oks s t d,
+  run_ops u orcs 0 (init_graph i o s0) ops = (st, oks) -> g_compiled st = true ->
+  In (s, t) (g_data st ++ branch_pairs st) -> done_ok u st (s, d) ->
+  (conv_all (assert_type u) d (hedge_of st s t) = true <->
+   exists b, in_ty st t = Some b /\ dyn_assignable u d b = true).
+Proof. exact conn_check_exact_main. Qed.
+Print Assumptions connection_check_exact.
+
+Theorem branch_check_exact : forall u orcs i o s0 ops st oks s b d,
+  run_ops u orcs 0 (init_graph i o s0) ops = (st, oks) ->
+  In (s, b) (g_branches st) -> done_ok u st (s, d) ->
+  (conv_all (assert_type u) d (b_conv b) = true <-> dyn_assignable u d (b_ty b) = true).
+Proof. exact branch_check_exact_main. Qed.
+Print Assumptions branch_check_exact.
+
+(* st_b, connection P(3, inferred I2) -> n4 (T1): a T2 value is stopped, a T1 value passes *)
+Example connection_check_exact_nonvacuous :
+  In (3, 4)%N (g_data st_b ++ branch_pairs st_b) /\
+  done_ok U0 st_b (3%N, DVal 1) /\ done_ok U0 st_b (3%N, DVal 0) /\
+  conv_all (assert_type U0) (DVal 1) (hedge_of st_b 3%N 4%N) = false /\
+  conv_all (assert_type U0) (DVal 0) (hedge_of st_b 3%N 4%N) = true.
+Proof.
+  split; [vm_compute; auto|].
+  split; [exists I2; vm_compute; auto|]. split; [exists I2; vm_compute; auto|].
+  vm_compute. auto.
+Qed.
+
 (* ------------------------------------------------------------------ may_edges_error_iff *)
 
 (* [step_mismatch u st done]: some value [d] that a node [s] just completed with is not
@@ -450,6 +484,63 @@ Theorem inference_order_independent_partial_verdict : forall u orcs1 orcs2 i o s
   last (snd (run_ops u orcs2 0 (init_graph i o s) (L2 ++ [OpCompile]))) false.
 Proof. exact add_order_verdict. Qed.
 Print Assumptions inference_order_independent_partial_verdict.
+
+(* Round 3: the same holds whenever the declared types (graph input / output, node input /
+   output, branch conditions) form an ANTICHAIN of the lattice -- pairwise incomparable: two of
+   them are compatible only when equal -- interface types included: a graph over T3 and I1
+   (T3 does not implement I1), over G[int] and G[string], over I2 alone...  The order of the
+   Add* calls is observable only when two declared types are related by Implements (the
+   refutation above uses T1, T2 and I2, which both implement). *)
+Definition antichain (u : univ) (P : ty -> Prop) : Prop :=
+  forall a b, P a -> P b -> check_assignable u (Some a) (Some b) <> MustNot -> a = b.
+
+Theorem inference_order_independent_antichain : forall u (P : ty -> Prop) orcs1 orcs2 i o s L1 L2,
+  antichain u P -> P i -> P o -> Forall (op_tyP P) L1 -> no_compile L1 ->
+  Permutation.Permutation L1 L2 -> nbu [] L2 ->
+  last (snd (run_ops u orcs1 0 (init_graph i o s) (L1 ++ [OpCompile]))) false = true ->
+  last (snd (run_ops u orcs2 0 (init_graph i o s) (L2 ++ [OpCompile]))) false = true /\
+  forall k,
+    in_ty (fst (run_ops u orcs1 0 (init_graph i o s) (L1 ++ [OpCompile]))) k =
+    in_ty (fst (run_ops u orcs2 0 (init_graph i o s) (L2 ++ [OpCompile]))) k /\
+    out_ty (fst (run_ops u orcs1 0 (init_graph i o s) (L1 ++ [OpCompile]))) k =
+    out_ty (fst (run_ops u orcs2 0 (init_graph i o s) (L2 ++ [OpCompile]))) k.
+Proof. intros u P orcs1 orcs2 i o s L1 L2 A. exact (add_order_accept_gen u P A orcs1 orcs2 i o s L1 L2). Qed.
+Print Assumptions inference_order_independent_antichain.
+
+Theorem inference_order_independent_antichain_verdict : forall u (P : ty -> Prop) orcs1 orcs2 i o s L1 L2,
+  antichain u P -> P i -> P o -> Forall (op_tyP P) L1 -> no_compile L1 ->
+  Permutation.Permutation L1 L2 -> nbu [] L1 -> nbu [] L2 ->
+  last (snd (run_ops u orcs1 0 (init_graph i o s) (L1 ++ [OpCompile]))) false =
+  last (snd (run_ops u orcs2 0 (init_graph i o s) (L2 ++ [OpCompile]))) false.
+Proof. intros u P orcs1 orcs2 i o s L1 L2 A. exact (add_order_verdict_gen u P A orcs1 orcs2 i o s L1 L2). Qed.
+Print Assumptions inference_order_independent_antichain_verdict.
+
+(* an antichain with an interface type: {I1, T3}; START:I1 -> P -> n3:(I1 -> T3) -> Q -> END:T3 *)
+Definition P_i1t3 (t : ty) : Prop := t = I1 \/ t = T3.
+Definition ops_an : list op := [OpPass 2 None None; OpNode 3 I1 T3 None None; OpPass 4 None None]%N.
+Definition ops_ac : list op := [OpEdge 0 2; OpEdge 2 3; OpEdge 3 4; OpEdge 4 1]%N.
+Example inference_order_independent_antichain_nonvacuous :
+  antichain U0 P_i1t3 /\ P_i1t3 I1 /\ P_i1t3 T3 /\
+  Forall (op_tyP P_i1t3) (ops_an ++ ops_ac) /\ no_compile (ops_an ++ ops_ac) /\
+  Permutation.Permutation (ops_an ++ ops_ac) (rev ops_an ++ rev ops_ac) /\
+  nbu [] (ops_an ++ ops_ac) /\ nbu [] (rev ops_an ++ rev ops_ac) /\
+  last (snd (run_ops U0 asc 0 (init_graph I1 T3 None) ((ops_an ++ ops_ac) ++ [OpCompile]))) false = true /\
+  in_ty (fst (run_ops U0 asc2 0 (init_graph I1 T3 None) ((rev ops_an ++ rev ops_ac) ++ [OpCompile]))) 2%N = Some I1 /\
+  in_ty (fst (run_ops U0 asc2 0 (init_graph I1 T3 None) ((rev ops_an ++ rev ops_ac) ++ [OpCompile]))) 4%N = Some T3.
+Proof.
+  split.
+  { intros a b [Ha|Ha] [Hb|Hb] H; subst; try reflexivity; exfalso; apply H; vm_compute; reflexivity. }
+  split; [left; reflexivity|]. split; [right; reflexivity|].
+  split.
+  { apply Forall_forall. intros x Hx. simpl in Hx.
+    repeat (destruct Hx as [Hx|Hx]; [subst x; simpl; try exact I; try (split; [left|right]; reflexivity)|]).
+    destruct Hx. }
+  split; [repeat constructor; discriminate|].
+  split; [apply Permutation.Permutation_app; apply Permutation.Permutation_rev|].
+  split; [simpl; intuition (try discriminate); subst; simpl; intuition|].
+  split; [simpl; intuition (try discriminate); subst; simpl; intuition|].
+  vm_compute. auto.
+Qed.
 
 (* two passthrough nodes and a branch, connection calls in opposite orders *)
 Definition ops_hn : list op :=
